@@ -552,31 +552,7 @@ func c17(r *core.Report) {
 		}
 		r.Check(okEnc, "C17-ALPHABET", "enc construction", "-", "enc = base64.NewEncoding(Base64Alphabet).WithPadding(NoPadding)", "the peer-id encoding is not built from Base64Alphabet without padding")
 		// UnmarshalText: Decode is guarded by the length comparison
-		um := needFn(r, "", "PeerID.UnmarshalText")
-		if um != nil {
-			okLen := false
-			for _, ci := range core.CallsToName(um, "(*encoding/base64.Encoding).Decode") {
-				cut := core.CutWhere(func(cond ssa.Value) int {
-					b, ok := cond.(*ssa.BinOp)
-					if !ok || !isLenCall(b.X) {
-						return 0
-					}
-					c2, _, ok := core.CallResult(b.Y)
-					if !ok || core.CalleeName(c2.Common()) != "(*encoding/base64.Encoding).EncodedLen" {
-						return 0
-					}
-					switch b.Op.String() {
-					case "!=":
-						return -1
-					case "==":
-						return 1
-					}
-					return 0
-				})
-				okLen = core.GuardEdges(um, cut) > 0 && core.GuardedFromEntry(um, ci.(ssa.Instruction), cut)
-			}
-			r.Check(okLen, "C17-ALPHABET", core.FnName(um)+" length check", p.Pos(um.Pos()), "decoding happens only when the text has exactly the encoded length of an id", "text of the wrong length is decoded: short or long text yields an identity")
-		}
+		ruleBase64DecodeFits(r, "C17-ALPHABET", "text of the wrong length is decoded: short or long text yields an identity")
 	}
 }
 
@@ -683,4 +659,44 @@ func ruleKeyFields(r *core.Report, ruleID string, equalOnly bool) {
 		// Equal must compare each field of a with the same field of b
 	}
 
+}
+
+// ruleBase64DecodeFits: base64's Decode writes DecodedLen(len(src)) bytes into dst and indexes past a shorter
+// dst (a run-time panic). Every module call of (*base64.Encoding).Decode is reached only on the edge where
+// len(src) equals the encoding's EncodedLen(...). Shared by C17 (only text of an id's length is an id), C16
+// (parsing arbitrary address text fails cleanly) and C08 (no text from the network panics).
+func ruleBase64DecodeFits(r *core.Report, ruleID, whyBad string) {
+	p := r.P
+	n := 0
+	for _, fn := range p.ModFuncs {
+		if strings.Contains(fn.String(), "swarmtest") || strings.Contains(fn.String(), "p2ptest") {
+			continue
+		}
+		for _, ci := range core.CallsToName(fn, "(*encoding/base64.Encoding).Decode") {
+			n++
+			r.Analysed(fn)
+			cut := core.CutWhere(func(cond ssa.Value) int {
+				b, ok := cond.(*ssa.BinOp)
+				if !ok || !isLenCall(b.X) {
+					return 0
+				}
+				c2, _, ok := core.CallResult(b.Y)
+				if !ok || core.CalleeName(c2.Common()) != "(*encoding/base64.Encoding).EncodedLen" {
+					return 0
+				}
+				switch b.Op.String() {
+				case "!=":
+					return -1
+				case "==":
+					return 1
+				}
+				return 0
+			})
+			okLen := core.GuardEdges(fn, cut) > 0 && core.GuardedFromEntry(fn, ci.(ssa.Instruction), cut)
+			r.Check(okLen, ruleID, core.FnName(fn)+" length check", p.Pos(fn.Pos()), "decoding happens only when the text has exactly the encoded length of the destination", whyBad)
+		}
+	}
+	if n == 0 {
+		r.Fail("%s: no base64 Decode call found in the module (anchor stale)", ruleID)
+	}
 }
